@@ -10,6 +10,7 @@ import (
 	"github.com/KevoDB/kevo/pkg/common/iterator/composite"
 	"github.com/KevoDB/kevo/pkg/config"
 	"github.com/KevoDB/kevo/pkg/sstable"
+	"github.com/KevoDB/kevo/pkg/verifhook"
 )
 
 // DefaultCompactionExecutor handles the actual compaction process
@@ -66,6 +67,7 @@ func (e *DefaultCompactionExecutor) CompactFiles(task *CompactionTask) ([]string
 				return fmt.Errorf("failed to finish SSTable: %w", err)
 			}
 			outputFiles = append(outputFiles, currentOutputPath)
+			verifhook.Point("compaction.exec.after_output")
 		}
 
 		// Create a new output file
@@ -163,12 +165,14 @@ func (e *DefaultCompactionExecutor) CompactFiles(task *CompactionTask) ([]string
 		currentWriter.Abort()
 	}
 
+	verifhook.Point("compaction.exec.done")
 	return outputFiles, nil
 }
 
 // DeleteCompactedFiles removes the input files that were successfully compacted
 func (e *DefaultCompactionExecutor) DeleteCompactedFiles(filePaths []string) error {
 	for _, path := range filePaths {
+		verifhook.Point("compaction.delete.before_unlink")
 		if err := os.Remove(path); err != nil {
 			return fmt.Errorf("failed to delete compacted file %s: %w", path, err)
 		}
